@@ -249,6 +249,23 @@ func toksString(toks []string) (string, bool) {
 
 // ---- the real code ---------------------------------------------------------------------------
 
+// stable runs f until two consecutive runs agree. ansi.Parser arms a 10 ms timer on every ESC and
+// resets its state when it fires (finding F29 of property C08: a race with the reader); on a loaded
+// machine that rarely tears a sequence apart even when reading from a string. The result of such a
+// torn run is not what C18 is about, so it is retried here and counted.
+func (e *env) stable(f func() string) string {
+	a := f()
+	for i := 0; i < 6; i++ {
+		b := f()
+		if a == b {
+			return a
+		}
+		e.r.Count("parser-timer-flake-retried")
+		a = b
+	}
+	return a
+}
+
 func (e *env) doEnc(which string, caps int, cells []vaxis.Cell) (res string) {
 	if err := e.setLegacy(caps&4 != 0); err != nil {
 		return "error:" + err.Error()
@@ -257,10 +274,10 @@ func (e *env) doEnc(which string, caps int, cells []vaxis.Cell) (res string) {
 	panicked, _ := hx.Guard(func() {
 		switch which {
 		case "cells":
-			res = tokenize(vaxis.EncodeCells(cells), false)
+			res = e.stable(func() string { return tokenize(vaxis.EncodeCells(cells), false) })
 		case "ss":
 			ss := &vaxis.StyledString{Cells: cells}
-			res = tokenize(ss.Encode(), false)
+			res = e.stable(func() string { return tokenize(ss.Encode(), false) })
 		case "render":
 			vx, fc, err := e.session(caps)
 			if err != nil {
@@ -273,7 +290,8 @@ func (e *env) doEnc(which string, caps int, cells []vaxis.Cell) (res string) {
 				win.SetCell(i, 0, c)
 			}
 			vx.Render()
-			res = tokenize(string(fc.Take()), true)
+			frame := string(fc.Take())
+			res = e.stable(func() string { return tokenize(frame, true) })
 			win.Clear()
 			vx.Render()
 			fc.Take()
@@ -295,15 +313,17 @@ func (e *env) doDec(which string, dflt vaxis.Style, toks []string) (res string) 
 	panicked, msg := hx.Guard(func() {
 		switch which {
 		case "cells":
-			res = cellsStr(vaxis.ParseStyledString(s))
+			res = e.stable(func() string { return cellsStr(vaxis.ParseStyledString(s)) })
 		case "ss":
 			res = cellsStr(e.plain.NewStyledString(s, dflt).Cells)
 		case "emu":
-			pen := dflt
-			for _, ps := range sgrParams(s) {
-				pen = term.VerifC18Sgr(e.emu, pen, ps)
-			}
-			res = styleStr(pen)
+			res = e.stable(func() string {
+				pen := dflt
+				for _, ps := range sgrParams(s) {
+					pen = term.VerifC18Sgr(e.emu, pen, ps)
+				}
+				return styleStr(pen)
+			})
 		default:
 			res = "bad-op"
 		}
@@ -319,7 +339,7 @@ func (e *env) doRt(which string, cells []vaxis.Cell) (res string) {
 	panicked, _ := hx.Guard(func() {
 		switch which {
 		case "cells":
-			res = cellsStr(vaxis.ParseStyledString(vaxis.EncodeCells(cells)))
+			res = e.stable(func() string { return cellsStr(vaxis.ParseStyledString(vaxis.EncodeCells(cells))) })
 		case "ss":
 			ss := &vaxis.StyledString{Cells: cells}
 			res = cellsStr(e.plain.NewStyledString(ss.Encode(), vaxis.Style{}).Cells)
@@ -653,6 +673,34 @@ func randBody(rng *gen.Rng, junk bool) string {
 	return strings.Join(parts, ";")
 }
 
+var soloCodes = []int{1, 2, 3, 4, 5, 7, 8, 9, 22, 23, 24, 25, 27, 28, 29, 39, 49, 59}
+
+// rangeSeq: one parameter list a producer can write (legacy: the semicolon colour forms).
+func rangeSeq(rng *gen.Rng, legacy bool) string {
+	switch rng.Intn(10) {
+	case 0, 1, 2, 3:
+		return strconv.Itoa(gen.Pick(rng, soloCodes))
+	case 4:
+		return strconv.Itoa(gen.Pick(rng, []int{30, 40, 90, 100}) + rng.Intn(8))
+	case 5:
+		return "4:" + strconv.Itoa(rng.Intn(6))
+	case 6:
+		return "-"
+	case 7, 8:
+		p := gen.Pick(rng, []string{"38", "48", "58"})
+		if legacy && p != "58" {
+			return fmt.Sprintf("%s;5;%d", p, rng.Intn(256))
+		}
+		return fmt.Sprintf("%s:5:%d", p, rng.Intn(256))
+	default:
+		p := gen.Pick(rng, []string{"38", "48", "58"})
+		if legacy && p != "58" {
+			return fmt.Sprintf("%s;2;%d;%d;%d", p, rng.Intn(256), rng.Intn(256), rng.Intn(256))
+		}
+		return fmt.Sprintf("%s:2:%d:%d:%d", p, rng.Intn(256), rng.Intn(256), rng.Intn(256))
+	}
+}
+
 func (e *env) genDec(rng *gen.Rng) {
 	r := e.r
 	zero := vaxis.Style{}
@@ -662,6 +710,7 @@ func (e *env) genDec(rng *gen.Rng) {
 		for c := 0; c <= 110; c++ {
 			e.dec(which, zero, "S"+strconv.Itoa(c), "T61")
 			e.dec(which, zero, "S1", "S3", "S4:3", "S31", "S42", "S58:5:7", "T61", "S"+strconv.Itoa(c), "T62")
+			e.dec(which, zero, "S1", "S2", "S3", "S5", "S7", "S8", "S9", "S4:5", "S38:2:1:2:3", "S105", "S58:2:9:8:7", "T61", "S"+strconv.Itoa(c), "T62")
 			e.dec(which, zero, "S1;3;4:3;31;42;58:5:7", "T61", "S"+strconv.Itoa(c), "T62")
 			for _, sub := range []string{":0", ":5", ":2:1:2:3", ":5:7", ":", ":2::1:2:3", ":1:2:3:4:5:6:7"} {
 				e.dec(which, zero, "S"+strconv.Itoa(c)+sub, "T61")
@@ -699,6 +748,25 @@ func (e *env) genDec(rng *gen.Rng) {
 				r.Count("dec-truncated:" + which)
 			}
 		}
+	}
+	// producer-like streams: sequences from the producers' range, one parameter list each
+	np := 6000
+	if r.Thorough {
+		np = 150000
+	}
+	for i := 0; i < np; i++ {
+		which := consumers[i%3]
+		k := 2 + rng.Intn(10)
+		var toks []string
+		for j := 0; j < k; j++ {
+			toks = append(toks, "S"+rangeSeq(rng, which != "ss" && rng.Chance(1, 5)))
+			if rng.Chance(1, 3) {
+				toks = append(toks, "T"+hx.Hex(gen.Pick(rng, graphemes)))
+			}
+		}
+		toks = append(toks, "T61")
+		e.dec(which, zero, toks...)
+		r.Count("dec-range-stream:" + which)
 	}
 	n := 8000
 	if r.Thorough {
